@@ -61,6 +61,8 @@ func directCases(r *rand.Rand, cfg vh.Config) []*Case {
 		if r.Intn(3) > 0 {
 			s = "tx." + s
 		}
+		// IP is a valid Coraza variable outside the model's variable table: keep macros on modelled names
+		s = strings.ReplaceAll(s, "{ip.", "{iq.")
 		out = append(out, rawCase("init", s))
 	}
 	macros := []string{
